@@ -118,6 +118,10 @@ func init() {
 		"async-executed")
 	props["C06"] = simProp("whole-engine runs with the shutdown source (Engine.Stop, gnet.Stop, Shutdown action from OnBoot/OnOpen/OnTraffic/OnClose/OnTick) and moment (any scheduler step: mid-accept, mid-read, queued async tasks, concurrent second Stop) drawn from the seed; Run returns nil within the drain bound (hang = quiescent without return), every opened connection got OnClose before, OnShutdown exactly once, no callback afterwards during a post-mortem phase in which timers keep firing; non-trivial = connections were open;"+sig,
 		"accepted")
+	props["C18"] = simProp("per seeded scenario (3-4 connections with echo-like checked traffic in LT or ET, reactor or reuseport, tcp or unix, plus a late probe connection): one fault-free run recording the syscall trace by (site, descriptor class, call index), then one run per single fault (read/write/writev/epoll_ctl add,mod,del/close on stream descriptors, epoll_wait, accept4; call index 1..6 (12 thorough); errno from the realistic set of the site; stateful resets mark the socket too) on the same seed, i.e. the same schedule prefix; every fourth seed is a random plan with 1-2 random faults instead; oracle: no panic, C01/C02/C04/C05/C06/C07 monitors hold (victims exempt from completeness only), victim closed with an error and its descriptor released, probe served, retryable conditions (EAGAIN LT-only, EINTR, ECONNABORTED) leave everything as fault-free; evaluations counts every executed run; non-trivial/distinct = scenario enumerations (hash of all sub-run logs) and random-fault runs in which a fault fired with at least two connections open",
+		"faults-enumerated", "scenarios-enumerated-completely")
+	props["C18"].level = "fault_enumeration"
+	props["C18"].quickS, props["C18"].thoroughS = 30, 600
 	props["C07"] = simProp("same runs as C04/C06; oracle = the simulated kernel's ledger: any framework call on a closed or foreign descriptor number is a violation at that step (canaries grab freed numbers at once), every framework-created descriptor closed exactly once by the time Run returns, unix-socket file removed; non-trivial = a descriptor number was re-used or a connection closed;"+sig,
 		"fd-number-reused", "canary-grabbed")
 }
